@@ -6,9 +6,9 @@ package h6throttle
 
 import (
 	"fmt"
-	"os"
 	"math"
 	"math/rand/v2"
+	"os"
 	"sort"
 	"strings"
 	"time"
@@ -27,20 +27,22 @@ import (
 func init() { core.Register(&H{}) }
 
 type Ev struct {
-	ID     int           `json:"id"`
-	Key    string        `json:"key"`             // "" = field absent -> default key
-	Lvl    string        `json:"lvl,omitempty"`   // rule condition field
-	Dist   string        `json:"dist,omitempty"`  // distribution field
-	TimeOff time.Duration `json:"time_off"`       // event time = now + offset
-	TimeKind string      `json:"time_kind"`       // ok | garbage | absent
-	Size   int           `json:"size"`
-	Pause  time.Duration `json:"pause,omitempty"`
+	ID       int           `json:"id"`
+	Key      string        `json:"key"`            // "" = field absent -> default key
+	Lvl      string        `json:"lvl,omitempty"`  // rule condition field
+	Dist     string        `json:"dist,omitempty"` // distribution field
+	TimeOff  time.Duration `json:"time_off"`       // event time = now + offset
+	TimeKind string        `json:"time_kind"`      // ok | garbage | absent
+	Size     int           `json:"size"`
+	Pause    time.Duration `json:"pause,omitempty"`
 }
 
 type RuleCfg struct {
 	Limit int64  `json:"limit"`
 	Kind  string `json:"kind"`
 	Lvl   string `json:"lvl"`
+	// DistRatio: the rule has its own limit_distribution (same value groups as Cfg.DistVals, these ratios)
+	DistRatio []float64 `json:"dist_ratios,omitempty"`
 }
 
 type Cfg struct {
@@ -82,6 +84,10 @@ func (h *H) Gen(rng *rand.Rand, tier, prop string) core.Cfg {
 			rc.Limit = int64(core.Between(rng, 0, 4))
 		} else {
 			rc.Limit = int64(core.Between(rng, 10, 150))
+		}
+		if core.Chance(rng, 0.3) && rc.Limit >= 2 {
+			rc.DistRatio = []float64{core.Pick(rng, 0.25, 0.5), 0.25}
+			c.DistVals = [][]string{{"a"}, {"b", "c"}}
 		}
 		c.Rules = append(c.Rules, rc)
 	}
@@ -196,18 +202,21 @@ func (h *H) Run(cc core.Cfg, sim *simrt.Sim) *core.Outcome {
 		if err != nil {
 			panic(err)
 		}
-		var rules []string
-		for _, r := range cfg.Rules {
-			rules = append(rules, fmt.Sprintf(`{"limit":%d,"limit_kind":%q,"conditions":{"lvl":%q}}`, r.Limit, r.Kind, r.Lvl))
-		}
-		dist := ""
-		if cfg.DistVals != nil {
+		distJSON := func(ratios []float64) string {
+			if ratios == nil {
+				return ""
+			}
 			var rs []string
 			for i, vs := range cfg.DistVals {
-				rs = append(rs, fmt.Sprintf(`{"ratio":%v,"values":["%s"]}`, cfg.DistRatio[i], strings.Join(vs, `","`)))
+				rs = append(rs, fmt.Sprintf(`{"ratio":%v,"values":["%s"]}`, ratios[i], strings.Join(vs, `","`)))
 			}
-			dist = fmt.Sprintf(`,"limit_distribution":{"field":"dist","ratios":[%s]}`, strings.Join(rs, ","))
+			return fmt.Sprintf(`,"limit_distribution":{"field":"dist","ratios":[%s]}`, strings.Join(rs, ","))
 		}
+		var rules []string
+		for _, r := range cfg.Rules {
+			rules = append(rules, fmt.Sprintf(`{"limit":%d,"limit_kind":%q,"conditions":{"lvl":%q}%s}`, r.Limit, r.Kind, r.Lvl, distJSON(r.DistRatio)))
+		}
+		dist := distJSON(cfg.DistRatio)
 		window := time.Duration(cfg.Buckets) * cfg.Interval
 		js := fmt.Sprintf(`{"throttle_field":"k","time_field":"time","default_limit":%d,"limit_kind":%q,"bucket_interval":%q,"buckets_count":%d,"limiter_expiration":%q,"rules":[%s]%s}`,
 			cfg.Limit, cfg.Kind, cfg.Interval.String(), cfg.Buckets, (2*window + cfg.Sim.StallMax + 5*time.Second).String(), strings.Join(rules, ","), dist)
@@ -316,6 +325,13 @@ func (h *H) check(cfg *Cfg, all []*obs, o *core.Outcome) {
 		}
 		return id, true
 	}
+	// distOf: the ratios of the limit distribution that applies to a rule index (len(cfg.Rules) = default limit)
+	distOf := func(rule int) []float64 {
+		if rule < len(cfg.Rules) {
+			return cfg.Rules[rule].DistRatio
+		}
+		return cfg.DistRatio
+	}
 	limitOf := func(rule int) (int64, string) {
 		if rule < len(cfg.Rules) {
 			return cfg.Rules[rule].Limit, cfg.Rules[rule].Kind
@@ -380,7 +396,7 @@ func (h *H) check(cfg *Cfg, all []*obs, o *core.Outcome) {
 				v = int64(ob.size)
 			}
 			total += v
-			if k.rule == len(cfg.Rules) && cfg.DistVals != nil {
+			if distOf(k.rule) != nil {
 				for gi, vs := range cfg.DistVals {
 					for _, dv := range vs {
 						if dv == ob.ev.Dist {
@@ -394,11 +410,11 @@ func (h *H) check(cfg *Cfg, all []*obs, o *core.Outcome) {
 			nontrivial = true
 		}
 		bound := limit
-		if k.rule == len(cfg.Rules) && cfg.DistVals != nil {
+		if ratios := distOf(k.rule); ratios != nil {
 			// with a distribution the total is bounded by the sum of the (rounded) shares
 			var sum float64
 			bound = 0
-			for _, r := range cfg.DistRatio {
+			for _, r := range ratios {
 				sum += r
 				bound += int64(math.Round(r * float64(limit)))
 			}
@@ -413,7 +429,7 @@ func (h *H) check(cfg *Cfg, all []*obs, o *core.Outcome) {
 			return
 		}
 		for gi, v := range perDist {
-			share := int64(math.Round(cfg.DistRatio[gi] * float64(limit)))
+			share := int64(math.Round(distOf(k.rule)[gi] * float64(limit)))
 			if v > share {
 				o.Violate("C16", "over-distribution-share/"+kind, "key %q bucket %d: values %v passed %d, their share is %d of limit %d", k.key, k.bucket, cfg.DistVals[gi], v, share, limit)
 				return
@@ -426,7 +442,7 @@ func (h *H) check(cfg *Cfg, all []*obs, o *core.Outcome) {
 			continue
 		}
 		limit, kind := limitOf(ob.rule)
-		if kind != "count" || (ob.rule == len(cfg.Rules) && cfg.DistVals != nil) {
+		if kind != "count" || distOf(ob.rule) != nil {
 			continue
 		}
 		if limit < 0 {
